@@ -54,6 +54,7 @@ func runC07(c *Ctx) {
 	c.rule("V6", "a method of the filesystem that is handed an already opened file consults the closed guard before it touches that handle: a handle taken before Close() serves nothing afterwards", 4)
 	c.rule("V7", "where the guard found the filesystem closed, the error returned is the guard's own ('failed condition'), not a fresh error of another kind", 30)
 	c.rule("Z5", "legal names are not refused: the zip-slip tests of the extraction look for path elements equal to \"..\", never for the substring (a..b.txt, ..leading and trailing.. are names the zip side produces)", 1)
+	c.rule("Z8", "zip: the outcome of closing the zip writer (which flushes the entries and writes the central directory) and the archive file reaches the error result", 2)
 	c.rule("Z7", "zip: the archive is written into a handle that starts empty (CreateFile, or OpenFile with O_TRUNC / O_EXCL) — a shorter archive written over a longer one keeps the old central directory at its end", 1)
 	c.rule("Z6", "extraction: the name of an entry — a path relative to the archive — is never handed to the filesystem as it is (it would be resolved against the working directory of the process); the filesystem only sees the sanitised extraction path", 1)
 	c.rule("Z4", "unzip: every way round the entry loop that creates an entry appends its path (or the paths of the nested extraction) to the list returned, in that same iteration", 2)
@@ -68,6 +69,7 @@ func runC07(c *Ctx) {
 	c.c07NamesVerbatim()
 	c.c07NoProbeOfEntryNames()
 	c.c07ArchiveReplaces()
+	c.c07ArchiveClosed()
 	c.c07Listed()
 	c.c07Handles()
 	c.c07DotsInNames()
@@ -1047,4 +1049,140 @@ func c07osFlag(c *Ctx, n string) int64 {
 	}
 	v, _ := constant.Int64Val(k.Val())
 	return v
+}
+
+// c07ArchiveClosed (Z8): zip.Writer.Close flushes what is buffered and writes the central directory — for a small tree
+// it is the only moment anything reaches the file. If its error (or that of closing the file) is dropped, Zip reports
+// success for an archive that cannot be read back, and so does everything built on it (a shared-cache Store).
+func (c *Ctx) c07ArchiveClosed() {
+	f := c.fnOpt(fsPkgRel, "(*VFS).ZipWithContextAndLimitsAndExclusionPatterns")
+	if f == nil {
+		return
+	}
+	fns := append([]*ssa.Function{f}, f.AnonFuncs...)
+	for _, want := range []struct{ callee, what, key string }{
+		{"(*archive/zip.Writer).Close", "closing the zip writer", "writer"},
+		{"Close", "closing the archive file", "file"},
+	} {
+		found, heeded := false, false
+		for _, g := range fns {
+			allInstrs(g, func(in ssa.Instruction) {
+				cl, ok := in.(*ssa.Call)
+				if !ok {
+					return
+				}
+				n := calleeFull(&cl.Call)
+				match := n == want.callee
+				if want.key == "file" {
+					// the handle the writer writes into: an invoke of Close on a File value
+					match = cl.Call.IsInvoke() && cl.Call.Method.Name() == "Close" && strings.HasSuffix(cl.Call.Value.Type().String(), "filesystem.File")
+					if match {
+						// not the source files opened by the walker
+						isArchive := c07IsCreatedHandle(cl.Call.Value, f, 0)
+						match = isArchive
+					}
+				}
+				if !match {
+					return
+				}
+				found = true
+				if c07ReachesErrorResult(cl, f, g) {
+					heeded = true
+				}
+			})
+		}
+		c.check(found && heeded, "Z8", fname(f)+"/close-outcome:"+want.key, c.pos(f.Pos()), "the outcome of "+want.what+" is reported when nothing failed before",
+			"the outcome of "+want.what+" is dropped: when it fails (no space left, I/O error — for a small tree nothing is written before) Zip reports success for an archive that cannot be read back")
+	}
+}
+
+// c07ReachesErrorResult: the value of call cl (made in g, which is f or a literal of f) flows into f's error result:
+// returned by f, or stored into f's named error result from a deferred literal.
+func c07ReachesErrorResult(cl *ssa.Call, f, g *ssa.Function) bool {
+	seen := map[ssa.Value]bool{}
+	var walk func(v ssa.Value) bool
+	walk = func(v ssa.Value) bool {
+		if seen[v] || v.Referrers() == nil {
+			return false
+		}
+		seen[v] = true
+		for _, r := range *v.Referrers() {
+			switch x := r.(type) {
+			case *ssa.Return:
+				if g == f {
+					return true
+				}
+			case *ssa.Store:
+				if x.Val != v {
+					continue
+				}
+				// the named error result of f: an Alloc of f, or a free variable of the literal bound to it
+				if a, ok := x.Addr.(*ssa.Alloc); ok && a.Parent() == f && isErrorType(a.Type().Underlying().(*types.Pointer).Elem()) {
+					return true
+				}
+				if fv, ok := x.Addr.(*ssa.FreeVar); ok {
+					if pt, isP := fv.Type().Underlying().(*types.Pointer); isP && isErrorType(pt.Elem()) {
+						return true
+					}
+				}
+			case *ssa.Phi:
+				if walk(x) {
+					return true
+				}
+			case *ssa.Call:
+				// converters (ConvertFileSystemError, convertZipError, …): follow the result
+				if g2 := staticCallee(&x.Call); g2 != nil && strings.Contains(strings.ToLower(g2.Name()), "convert") && walk(x) {
+					return true
+				}
+			case *ssa.MakeInterface:
+				if walk(x) {
+					return true
+				}
+			}
+		}
+		return false
+	}
+	return walk(cl)
+}
+
+// c07IsCreatedHandle: v is (a load of a variable of f holding) the handle returned by CreateFile / Create / OpenFile.
+func c07IsCreatedHandle(v ssa.Value, f *ssa.Function, depth int) bool {
+	if depth > 4 {
+		return false
+	}
+	isOpener := func(l ssa.Value) bool {
+		if ex, isEx := l.(*ssa.Extract); isEx {
+			if oc, isOC := ex.Tuple.(*ssa.Call); isOC {
+				if nm, _, isFs := fsMethodCall(oc); isFs && (nm == "CreateFile" || nm == "Create" || nm == "OpenFile") {
+					return true
+				}
+			}
+		}
+		return false
+	}
+	for _, l := range sources(v, deriveOpts{}) {
+		if isOpener(l) {
+			return true
+		}
+		// a variable of the enclosing function captured by reference: look at what is stored into it
+		var cell ssa.Value
+		if u, isU := l.(*ssa.UnOp); isU {
+			cell = u.X
+		}
+		if fv, isFV := cell.(*ssa.FreeVar); isFV {
+			cell = resolveFreeVar(fv)
+		}
+		if a, isA := cell.(*ssa.Alloc); isA {
+			found := false
+			allInstrs(f, func(in ssa.Instruction) {
+				if st, ok := in.(*ssa.Store); ok && st.Addr == ssa.Value(a) && c07IsCreatedHandle(st.Val, f, depth+1) {
+					found = true
+				}
+			})
+			if found {
+				return true
+			}
+		}
+	}
+	return false
 }
